@@ -80,6 +80,11 @@ STD_REWRITES = {
     "gzip.rs": [
         ("use std::io::{self, Write};", "use crate::verif_std::io::{self, Write};"),
     ],
+    # `write!(&mut Vec<u8>, ..)` in prepare_multipart: std's io::Error has pointer-tagged
+    # representation and recursive drop glue that the model checker cannot get through.
+    "serving.rs": [
+        ("use std::io::Write;", "use crate::verif_std::io::Write;"),
+    ],
 }
 
 
